@@ -65,7 +65,7 @@ static std::string dec(const toks_t& t)
     }
     else if (fmt == "ubjson")
     {
-        jc::ubjson::ubjson_decode_options o; o.max_items(4096);
+        jc::ubjson::ubjson_options o; o.max_items(4096);
         out += guard("buf", [&] { jc::ubjson::decode_ubjson<jc::json>(v, o); });
         out += guard("stream", [&] { std::istringstream is(bytes); jc::ubjson::decode_ubjson<jc::json>(is, o); });
         out += guard("cursor", [&] { std::error_code ec; jc::ubjson::ubjson_bytes_cursor c(v, o, ec); while (!ec && !c.done()) c.next(ec); });
@@ -129,7 +129,7 @@ static std::string expr(const toks_t& t)
         out += guard("get", [&] { jc::jsonpointer::get(doc, text); });
         out += guard("ec", [&] { std::error_code ec; jc::jsonpointer::get(doc, text, ec); jc::jsonpointer::contains(doc, text); });
         out += guard("add", [&] { jc::json d2 = doc; std::error_code ec; jc::jsonpointer::add(d2, text, jc::json(1), true, ec); jc::jsonpointer::remove(d2, text, ec); });
-        out += guard("parse", [&] { std::error_code ec; auto ptr = jc::jsonpointer::json_pointer::parse(text, ec); if (!ec) { ptr.to_string(); ptr.to_uri_fragment(); } });
+        out += guard("parse", [&] { std::error_code ec; auto ptr = jc::jsonpointer::json_pointer::parse(text, ec); if (!ec) { ptr.to_string(); } });
     }
     else if (kind == "uri")
     {
